@@ -2,6 +2,7 @@ package main
 
 import (
 	"bytes"
+	"context"
 	"errors"
 	"fmt"
 	stdhtml "html"
@@ -278,8 +279,8 @@ func c13NilShadow(r *Run) {
 	fsys := fstest.MapFS{
 		"loop.vuego": &fstest.MapFile{Data: []byte(`<div v-for="label in labels"><b v-if="label">if</b><b v-else-if="label == nil">elseif-nil</b><b v-else>else</b>` +
 			`<i v-show="label">s</i><u :title="label">u</u><em>[{{ label }}]</em><s>[{{ label != nil ? label : 'none' }}]</s><q>[{{ label | default("dflt") }}]</q><a :href="label == nil ? 'nil' : 'set'">a</a></div>`)},
-		"inc.vuego":  &fstest.MapFile{Data: []byte(`<template include="c.vuego" :label="missing.path"></template>`)},
-		"c.vuego":    &fstest.MapFile{Data: []byte(`<div><b v-if="label">if</b><b v-else>else</b><em>[{{ label }}]</em><s>[{{ label != nil ? label : 'none' }}]</s><a :href="label == nil ? 'nil' : 'set'">a</a></div>`)},
+		"inc.vuego": &fstest.MapFile{Data: []byte(`<template include="c.vuego" :label="missing.path"></template>`)},
+		"c.vuego":   &fstest.MapFile{Data: []byte(`<div><b v-if="label">if</b><b v-else>else</b><em>[{{ label }}]</em><s>[{{ label != nil ? label : 'none' }}]</s><a :href="label == nil ? 'nil' : 'set'">a</a></div>`)},
 	}
 	norm := func(s string) string { return strings.Join(strings.Fields(s), "") }
 	for _, c := range []struct{ name, page, want string }{
@@ -410,6 +411,7 @@ func runC13(r *Run) {
 	c13Floats(r)
 	c13Mixed(r)
 	c13NilShadow(r)
+	c13ShadowedPromotion(r)
 	c13LeadingNot(r)
 	// ---------- positions ----------
 	n := 900
@@ -866,4 +868,55 @@ func asStr(v any) (string, bool) {
 		return fmt.Sprint(x), true
 	}
 	return "", false
+}
+
+// root structs that embed structs two levels deep, with a field name declared at more than one level (Go promotes the
+// shallowest): a bare path, a pipe and every operator expression over the name mean the same field
+type C13Base struct {
+	Label string
+	Deep  string
+	N     int
+}
+type C13Mid struct {
+	C13Base
+	Label string
+	N     int
+}
+type C13MidAfter struct {
+	Label string
+	C13Base
+}
+type c13Page struct{ C13Mid }
+type c13PageAfter struct{ C13MidAfter }
+type c13PagePtr struct{ *C13Mid }
+
+func c13ShadowedPromotion(r *Run) {
+	tpl := `<p data-a="{{ Label }}" :data-b="Label + ''" :data-c="Label">{{ Label }}|{{ Label + "" }}|{{ Label | upper | lower }}|{{ Label == 'mid' ? 'yes' : 'no' }}|{{ Deep }}|{{ Deep + "" }}</p>` +
+		`<b v-if="Label == 'mid'">if-mid</b><b v-else-if="Label == 'base'">if-base</b><b v-else>neither</b><i v-show="Label == 'mid'">s</i>`
+	want := `<pdata-a="mid"data-b="mid"data-c="mid">mid|mid|mid|yes|deep|deep</p><b>if-mid</b><i>s</i>`
+	roots := map[string]any{
+		"shadow-declared-after-embedding":  c13Page{C13Mid{C13Base: C13Base{Label: "base", Deep: "deep", N: 1}, Label: "mid", N: 2}},
+		"shadow-declared-before-embedding": c13PageAfter{C13MidAfter{Label: "mid", C13Base: C13Base{Label: "base", Deep: "deep"}}},
+		"through-embedded-pointer":         c13PagePtr{&C13Mid{C13Base: C13Base{Label: "base", Deep: "deep", N: 1}, Label: "mid", N: 2}},
+		"pointer-to-root":                  &c13Page{C13Mid{C13Base: C13Base{Label: "base", Deep: "deep", N: 1}, Label: "mid", N: 2}},
+	}
+	for name, root := range roots {
+		var buf bytes.Buffer
+		var err error
+		func() {
+			defer func() {
+				if x := recover(); x != nil {
+					err = fmt.Errorf("PANIC %v", x)
+				}
+			}()
+			err = vuego.New().Fill(root).RenderString(context.Background(), &buf, tpl)
+		}()
+		got := strings.Join(strings.Fields(buf.String()), "")
+		r.Eval("shadowed-promotion:"+name, true, nil)
+		r.Count("stream:shadowed-promotion(oracle only)")
+		if err != nil || got != want {
+			r.Fail("a field name declared at two levels of embedding means one field as a path and another in an expression", map[string]string{"oracle": "shadowed-promotion", "root": name},
+				map[string]any{"template": tpl, "root": fmt.Sprintf("%+v", root), "output": buf.String(), "expected_without_whitespace": want, "err": fmt.Sprint(err)})
+		}
+	}
 }
